@@ -166,12 +166,20 @@ def index_tuples(cls, want):
             ok = (len(lc.generators) == 1 and not lc.generators[0].ifs and isinstance(lc.generators[0].target, ast.Name)
                   and isinstance(lc.elt, ast.Subscript) and isinstance(lc.elt.value, ast.Name) and lc.elt.value.id == wname
                   and isinstance(lc.elt.slice, ast.Name) and lc.elt.slice.id == lc.generators[0].target.id
-                  and isinstance(lc.generators[0].iter, (ast.Tuple, ast.List))
-                  and all(isinstance(c, ast.Constant) and isinstance(c.value, int) and c.value >= 0 for c in lc.generators[0].iter.elts))
-            if not ok: raise Untranslatable('%s: extend() statement outside the grammar' % want)
-            out.append((node.lineno, [c.value for c in lc.generators[0].iter.elts]))
+                  )
+            it = lc.generators[0].iter if ok else None
+            if ok and isinstance(it, (ast.Tuple, ast.List)) and all(isinstance(c, ast.Constant) and isinstance(c.value, int) and c.value >= 0 for c in it.elts):
+                vals = [c.value for c in it.elts]
+            elif ok and isinstance(it, ast.Name) and isinstance(cls.update.__globals__.get(it.id), (tuple, list)) \
+                    and all(type(v) is int and v >= 0 for v in cls.update.__globals__[it.id]):
+                vals = list(cls.update.__globals__[it.id])      # a module-level table: the runtime value the loop reads (E1)
+            else:
+                raise Untranslatable('%s: extend() statement outside the grammar' % want)
+            out.append((node.lineno, vals))
     out.sort()
-    return [t for _, t in out]
+    flat = [v for _, t in out for v in t]
+    if len(flat) % 16: raise Untranslatable('%s: %d message-word indices (not a multiple of 16)' % (want, len(flat)))
+    return [flat[i:i + 16] for i in range(0, len(flat), 16)]     # one row of 16 per round after the first
 
 
 def fun_list(name, fnames, arity=3):
